@@ -44,9 +44,9 @@ type Interp struct {
 	// TableHook: a constant table (package-level map or array literal) is indexed with a value of a
 	// client domain (a kind token): the client partitions the trace on the table's distinct values.
 	// valueOf(k) is the table's entry for the integer k (ok=false: no such index/key).
-	TableHook  func(in *Interp, idx AVal, valueOf func(k int64) (AVal, bool), zero AVal) (AVal, bool)
-	ConvHook   func(in *Interp, x AVal, to types.Type) (AVal, bool)
-	LenHook    func(in *Interp, x AVal) (AVal, bool)
+	TableHook func(in *Interp, idx AVal, valueOf func(k int64) (AVal, bool), zero AVal) (AVal, bool)
+	ConvHook  func(in *Interp, x AVal, to types.Type) (AVal, bool)
+	LenHook   func(in *Interp, x AVal) (AVal, bool)
 	// Unmodelled is told about every call to a function outside the repository (or an interface
 	// method) for which no model exists, before the result becomes an opaque symbol.
 	Unmodelled func(in *Interp, site ssa.Instruction, name string, args []AVal)
@@ -1530,6 +1530,13 @@ func (in *Interp) builtin(site ssa.Instruction, name string, args []AVal, resT *
 		}
 	case "append":
 		in.allocN++
+		// appending to a slice of symbolic (foreign) memory may write into its backing array: a reslice
+		// `shared[:0]`, `shared[:n]` keeps the capacity, so the appended elements land in the shared array
+		if in.TraceStores && len(args) == 2 {
+			if b, ok := args[0].(Sym); ok && b.K != "" {
+				in.Emit("store-sym", site, Sym{K: "append-into(" + b.K + ")", T: b.T}, args[1])
+			}
+		}
 		// list of known strings: append keeps the elements
 		if len(args) == 2 {
 			var base *ListVal
